@@ -189,3 +189,43 @@ class Cfg:
     def line(self, i, lidar):
         return (f'D {i} {lidar.code} {self.wait} {self.dense} {self.mode} {self.angle} {self.nblk} {F32(self.min)} {F32(self.max)} '
                 f'{self.start} {self.end} {self.lclock} {self.tsfirst} {self.pktcb} {self.tz} {self.user} {self.tail}')
+
+
+# ------------------------------------------------------------------------------ Ethernet / IP / UDP frames
+def udp_frame(payload, dport, sport=6699, vlan=False, ihl=5, ip_id=0, frag_off=0, more=False, proto=17, ethertype=0x0800,
+              ipv6=False, vlan_type=0x8100, raw_ip_payload=None, tot_len=None, ver=4):
+    """an Ethernet frame; raw_ip_payload (bytes after the IP header) overrides the UDP header + payload"""
+    eth = bytes([0, 1, 2, 3, 4, 5, 6, 7, 8, 9, 10, 11])
+    if vlan:
+        eth += vlan_type.to_bytes(2, 'big') + (100).to_bytes(2, 'big')
+    if ipv6:
+        eth += (0x86dd).to_bytes(2, 'big')
+        udp = sport.to_bytes(2, 'big') + dport.to_bytes(2, 'big') + (8 + len(payload)).to_bytes(2, 'big') + b'\x00\x00'
+        ip6 = bytes([0x60, 0, 0, 0]) + (len(udp) + len(payload)).to_bytes(2, 'big') + bytes([proto, 64]) + bytes(32)
+        return eth + ip6 + udp + payload
+    eth += ethertype.to_bytes(2, 'big')
+    if raw_ip_payload is None:
+        udp = sport.to_bytes(2, 'big') + dport.to_bytes(2, 'big') + (8 + len(payload)).to_bytes(2, 'big') + b'\x00\x00'
+        body = udp + payload
+    else:
+        body = raw_ip_payload
+    hl = ihl * 4
+    tl = hl + len(body) if tot_len is None else tot_len
+    fo = ((1 if more else 0) << 13) | ((frag_off // 8) & 0x1fff)
+    ip = bytes([(ver << 4) | ihl, 0]) + (tl & 0xffff).to_bytes(2, 'big') + ip_id.to_bytes(2, 'big') + fo.to_bytes(2, 'big') + bytes([64, proto, 0, 0]) + bytes([192, 168, 1, 200, 192, 168, 1, 102])
+    ip += bytes(max(0, hl - 20))
+    return eth + ip[:max(hl, 20)] + body
+
+
+def fragments(payload, dport, ip_id, sizes, sport=6699):
+    """split a UDP datagram (header + payload) into IP fragments of the given sizes (multiples of 8 except the last)"""
+    dgram = sport.to_bytes(2, 'big') + dport.to_bytes(2, 'big') + ((8 + len(payload)) & 0xffff).to_bytes(2, 'big') + b'\x00\x00' + payload
+    out, off = [], 0
+    i = 0
+    while off < len(dgram):
+        n = sizes[min(i, len(sizes) - 1)]
+        chunk = dgram[off:off + n]
+        more = off + n < len(dgram)
+        out.append(udp_frame(b'', dport, ip_id=ip_id, frag_off=off, more=more, raw_ip_payload=chunk))
+        off += n; i += 1
+    return out
